@@ -3073,7 +3073,9 @@ class SQLCompiler(Compiled):
             self.process(element.aggregate_order_by, **kw),
         )
 
-    def visit_aggregate_strings_func(self, fn, *, use_function_name, **kw):
+    def visit_aggregate_strings_func(
+        self, fn, *, use_function_name="aggregate_strings", **kw
+    ):
         # aggreagate_order_by attribute is present if visit_function
         # gave us a Function with aggregate_orderby_inline() as the inner
         # contents
